@@ -14,6 +14,15 @@ if REPO not in sys.path:
     sys.path.insert(0, REPO)
 os.environ.setdefault("PYTHONHASHSEED", "0")
 
+# The process the checks run in uses coarse numpy print options (a caller may have set any): with them, arrays that differ only
+# in their interior or beyond the first digit PRINT identically, so an implementation that keys anything on str() / repr() of
+# an array (instead of its values) is exposed by ordinary call histories.  Nothing in the harness depends on numpy's printing.
+try:
+    import numpy as _np
+    _np.set_printoptions(precision=1, threshold=5, edgeitems=1)
+except Exception:      # pragma: no cover
+    pass
+
 
 # ---------------------------------------------------------------------------------------------
 # float <-> <<hi, lo>>
